@@ -71,6 +71,29 @@ def eval_cover(ctx):
                 return "%s %s" % (i, pb)
         return None
 
+    def operands():
+        from . import quantx
+        pan = quantx.any_panic(ctx)
+        if pan is not None:
+            return "parse_operands%s" % (pan,)
+        for k_, v_ in quantx.special(ctx).items():
+            if isinstance(v_["result"], tuple) and v_["result"] and v_["result"][0] == "panic":
+                return "parse_operands on the %s row: %s" % (k_, v_["result"][1])
+        return None
+
+    def type_track():
+        from . import litx
+        from ..symeval import NONE as _N
+        lit = lambda v: ("enum", "Operand::LiteralBit32", [v])
+        for rid in (True, False):
+            # operand lists as the parser delivers them (rows of OpTypeInt / OpTypeFloat: C09 R-TAB-5)
+            for op, ops in (("TypeInt", [lit(("sym", "B")), lit(1)]), ("TypeInt", [lit(("sym", "B")), lit(0)]), ("TypeFloat", [lit(("sym", "B"))]),
+                            ("TypeFloat", [lit(("sym", "B")), ("enum", "Operand::FPEncoding", [("sym", "E")])]), ("TypeVoid", []), ("IAdd", [])):
+                res = litx.track_eval(ctx, rid, op, ops, False, False)
+                if res[0] == "panic":
+                    return "track(%s with %d operands): %s" % (op, len(ops), res[1])
+        return None
+
     def load(name):
         def run():
             pb = headerx.load_problem(ctx, name)
@@ -96,11 +119,35 @@ def eval_cover(ctx):
     table = {"ExtInstSetTracker::track": (("call",), ext_track), "disassemble::disas_ext_inst": (("call",), dis_ext),
              "Decoder::string": (("call", "assert"), dec("string")), "Decoder::words": (("call", "assert"), dec("words")),
              "Decoder::bit64": (("call",), dec("bit64")), "Decoder::word": (("call", "assert"), dec("id")),
-             "Parser::parse_header": (("call",), hdr), "Parser::parse_inst": (("call", "assert:Overflow(Sub)"), inst), "loader::load_bytes": (("call",), load("load_bytes")),
+             "Parser::parse_header": (("call",), hdr), "Parser::parse_inst": (("call", "assert:Overflow(Sub)"), inst),
+             "Parser::parse_operands": (("call",), operands), "TypeTracker::track": (("call",), type_track), "loader::load_bytes": (("call",), load("load_bytes")),
              "loader::load_words": (("call",), load("load_words"))}
     memo = {}
 
+    def inlined_into(full):
+        """names of the covered evaluations that evaluated the function `full` in place (a private helper of an evaluated function)"""
+        inl = ctx.memo("inlined_fns", dict)
+        nm = mir_name(full)
+        nm = re.sub(r"::<[^>]*>", "", nm)
+        segs = nm.split("::")
+        keys = {"%s::%s" % (segs[-2], segs[-1]) if len(segs) >= 2 else segs[-1], "::" + segs[-1]}
+        whats = set()
+        for k_ in keys:
+            whats |= inl.get(k_, set())
+        return whats
+
     def covered(full, kind, detail=""):
+        # run every covering evaluation once, so that the record of the functions they evaluated in place is complete
+        for suffix, (kinds, fn) in table.items():
+            if suffix not in memo:
+                try:
+                    memo[suffix] = fn()
+                except Exception as ex:
+                    memo[suffix] = "not analysable: %s" % ex
+        whats = inlined_into(full)
+        for suffix, (kinds, fn) in table.items():
+            if (kind in kinds or "%s:%s" % (kind, detail) in kinds) and memo[suffix] is None and any(suffix.split("::")[-1] in w and suffix.split("::")[0].split("::")[-1] in w for w in whats):
+                return True
         for suffix, (kinds, fn) in table.items():
             if (kind in kinds or "%s:%s" % (kind, detail) in kinds) and (suffix in full or suffix in mir_name(full)) and "{closure" not in full.split(suffix)[-1][:0]:
                 if suffix not in memo:
